@@ -15,6 +15,7 @@ import (
 // ---------------------------------------------------------------------------
 
 type Clause struct {
+	Slow bool   // only generated in the thorough tier
 	Kind string // requires, ensures, assume, invariant(loop), ...
 	Expr Expr
 	Src  string
@@ -30,12 +31,16 @@ type FuncSpec struct {
 	Requires []*Clause
 	Ensures  []*Clause
 	Assumes  []*Clause
+	Cases    []*Clause // case split: the function is verified once per case, with the case as an extra assumption;
+	// an additional obligation proves the cases are exhaustive under the precondition
 	Modifies []string // heap specs; nil = infer; ["nothing"]
 	HasMod   bool
+	Preserves []string // heaps whose pre-existing objects are unchanged ("all" = every heap the function may write)
 	LoopInv  map[int][]*Clause
 	Unroll   map[int]int
 	LoopMod  map[int][]string
 	Inline   bool
+	Deterministic bool // static obligation: no map range, select, go, time/rand/env calls, no reads of package variables
 	Panics   bool // generate panic obligations
 	Arith    bool // overflow obligations
 	Trusted  bool // contract is assumed, body not verified (interfaces / externals)
@@ -257,7 +262,13 @@ func splitWord(s string) (string, string) {
 
 func (db *SpecDB) parseClause(fs *FuncSpec, word, rest string, line int) error {
 	switch word {
-	case "requires", "ensures", "assume":
+	case "slowcase":
+		e, err := parseExpr(rest)
+		if err != nil {
+			return fmt.Errorf("%s: %v", word, err)
+		}
+		fs.Cases = append(fs.Cases, &Clause{Kind: "case", Expr: e, Src: rest, Line: line, Slow: true})
+	case "requires", "ensures", "assume", "case":
 		e, err := parseExpr(rest)
 		if err != nil {
 			return fmt.Errorf("%s: %v", word, err)
@@ -270,6 +281,8 @@ func (db *SpecDB) parseClause(fs *FuncSpec, word, rest string, line int) error {
 			fs.Ensures = append(fs.Ensures, c)
 		case "assume":
 			fs.Assumes = append(fs.Assumes, c)
+		case "case":
+			fs.Cases = append(fs.Cases, c)
 		}
 	case "modifies":
 		fs.HasMod = true
@@ -277,6 +290,13 @@ func (db *SpecDB) parseClause(fs *FuncSpec, word, rest string, line int) error {
 			m = strings.TrimSpace(m)
 			if m != "" && m != "nothing" {
 				fs.Modifies = append(fs.Modifies, m)
+			}
+		}
+	case "preserves":
+		for _, m := range strings.Split(rest, ",") {
+			m = strings.TrimSpace(m)
+			if m != "" {
+				fs.Preserves = append(fs.Preserves, m)
 			}
 		}
 	case "mode":
@@ -288,6 +308,8 @@ func (db *SpecDB) parseClause(fs *FuncSpec, word, rest string, line int) error {
 		default:
 			return fmt.Errorf("unknown mode %q", rest)
 		}
+	case "deterministic":
+		fs.Deterministic = true
 	case "inline":
 		fs.Inline = true
 	case "trusted":
